@@ -149,7 +149,7 @@ func (x *Exec) heapRead(st *State, k any, base, idx Term) Term {
 // to objects that were not allocated when it was entered (and its own local
 // cells); callers then keep everything they knew about existing memory.
 func (x *Exec) freshWrite(st *State, base Term, what string, unless ...Term) {
-	if x.topC == nil || x.topC.Opts["writes"] != "fresh" || x.topEntryAlloc.S == "" {
+	if x.topC == nil || x.topC.Opts["writes"] != "fresh" || x.topEntryAlloc.S == "" || x.inHavoc {
 		return
 	}
 	fr := x.curFrame
